@@ -1,7 +1,7 @@
 (* C17/ProofsWitness.v — the refutation witness of the unconditional at-most-one claim and the
    assembled statement about IncludeInvalidPolygons. *)
 From Coq Require Import ZArith String List Bool Lia.
-From Verif Require Import C17.Model C17.Spec C17.Mputil C17.Proofs C17.ProofsOpts C17.ProofsIncl C17.Examples.
+From Verif Require Import C17.Model C17.Spec C17.Mputil C17.ProofsPacked C17.Proofs C17.ProofsOpts C17.ProofsIncl C17.ProofsCarry C17.Examples.
 Import ListNotations.
 Open Scope Z_scope.
 
@@ -59,4 +59,45 @@ Lemma incl_keeps_holes_refuted :
 Proof.
   exists d_hole, r_hole. eexists. eexists. split; [left; reflexivity|].
   split; [vm_compute; reflexivity|]. split; [vm_compute; reflexivity|]. split; vm_compute; reflexivity.
+Qed.
+
+(* ---------- the packed FeatureID (known finding polygon-id-outside-packed-range) ---------- *)
+Definition f_dummy : feature :=
+  {| f_id := None; f_type := TNode; f_ref := 0; f_tags := []; f_tainted := false; f_rels := None;
+     f_meta := None; f_geom := GPoint (0, 0) |}.
+
+(* "every feature carries its element" is false of the faithful model without [packed_ok]:
+   the multipolygon relation -1 of d_polyneg comes out with type "" and id 2^40-1
+   (harness corpus case polyNegativeID: model = implementation there) *)
+Lemma polygon_relation_id_outside_packed_range_refuted :
+  exists d f, ids_unique d /\ key_clash d = false /\ poly_ids_ok d = false /\
+              In f (convert Mputil.join Mputil.ring_of o0 d) /\
+              f_type f = TNone /\ f_ref f = 1099511627775 /\ ~ carries_element o0 d f.
+Proof.
+  exists d_polyneg, (hd f_dummy (convert Mputil.join Mputil.ring_of o0 d_polyneg)).
+  split; [|split; [vm_compute; reflexivity|split; [vm_compute; reflexivity|
+           split; [vm_compute; left; reflexivity|split; [vm_compute; reflexivity|split; [vm_compute; reflexivity|]]]]]].
+  - unfold ids_unique. cbn.
+    repeat split; repeat (constructor; [cbn; intuition discriminate|]); constructor.
+  - intros (ts & m & _ & _ & _ & _ & H). vm_compute in H. exact H.
+Qed.
+
+(* and without [key_clash d = false]: node -1 of d_clash is reported as a member of relation 5
+   (the entry names WAY -1), and it is emitted only because of that: with NoRelationMembership the
+   way entry is not recorded and the node disappears, so the option does not merely erase a field
+   (harness corpus case keyClash) *)
+Lemma membership_key_clash_refuted :
+  exists d, ids_unique d /\ poly_ids_ok d = true /\ key_clash d = true /\
+    (exists f, In f (convert Mputil.join Mputil.ring_of o0 d) /\ fkey f = (TNode, -1) /\
+               f_rels f <> Some (spec_rels d (fkey f))) /\
+    convert Mputil.join Mputil.ring_of (set_noRelM true o0) d
+      <> map erase_rels (convert Mputil.join Mputil.ring_of (set_noRelM false o0) d).
+Proof.
+  exists d_clash. split; [|split; [vm_compute; reflexivity|split; [vm_compute; reflexivity|split]]].
+  - unfold ids_unique. cbn.
+    repeat split; repeat (constructor; [cbn; intuition discriminate|]); constructor.
+  - exists (last (convert Mputil.join Mputil.ring_of o0 d_clash) f_dummy).
+    split; [vm_compute; right; left; reflexivity|]. split; [vm_compute; reflexivity|].
+    vm_compute. discriminate.
+  - vm_compute. discriminate.
 Qed.
